@@ -1,6 +1,7 @@
 // Steps over ExplicitTreeAut: one real API call (or one fixed client protocol
 // taken from cli/operations.hh) plus the oracle of the running profile.
 #include "world.hh"
+#include "gen.hh"
 
 #include <vata/vata.hh>
 #include <vata/explicit_tree_aut.hh>
@@ -1219,6 +1220,23 @@ ET build_from_model(const TA& m, int alpha) {
 	return a;
 }
 
+// "An object with a history": a near relative of the handle's current value (same states; a rule or a final state dropped, or
+// one rule redirected) is built aside and copy-assigned over the SAME object; the operation that was asked of the object
+// before is then asked again by the plan.  Whatever an object remembers about its earlier value must not survive the assignment.
+void op_twist(const Step& s) {
+	ETH& h = H(s, 0); Rng r(uint64_t(s.arg(1)) + 41); Client& c = CL(s);
+	gen::Pool pool; for (auto& y : h.model.symbols()) pool.push_back(mdl::Sym(y.first, y.second));
+	if (pool.empty() || too_big(h.model)) throw Skip();
+	TA rel = gen::derive_ta(r, pool, h.model, (s.arg(2) & 1) ? 3 : 2);
+	if (s.arg(2) & 2) rel = gen::derive_ta(r, pool, rel, 3);
+	drop_iters_of(c, h.aut.get());
+	ET fresh = build_from_model(rel, h.alpha);
+	api_begin();
+	*h.aut = fresh;
+	h.model = rel; h.origin = ++g_origin_ctr;
+	after_mutation(s, "et_twist");
+}
+
 void op_repeat(const Step& s) {
 	if (g_decided.empty()) throw Skip();
 	const Decided d = g_decided[size_t(mod(s.arg(0), g_decided.size()))];
@@ -1306,7 +1324,7 @@ void register_expl_ops() {
 	register_op("et_reduce", op_reduce); register_op("et_complement", op_complement); register_op("et_complement_local", op_complement_local); register_op("et_witness", op_witness);
 	register_op("et_reindex", op_reindex); register_op("et_reindex_into", op_reindex_into);
 	register_op("et_collapse", op_collapse); register_op("et_transl_syms", op_transl_syms);
-	register_op("et_sim", op_sim); register_op("et_incl", op_incl); register_op("et_incl_all", op_incl_all);
+	register_op("et_twist", op_twist); register_op("et_sim", op_sim); register_op("et_incl", op_incl); register_op("et_incl_all", op_incl_all);
 	register_op("et_repeat", op_repeat); register_op("et_dump", op_dump);
 	register_abort_hook(abort_client);
 	register_final_hook(final_check);
